@@ -8,6 +8,15 @@ use std::marker::PhantomData;
 //@extract h3/src/stream.rs :: - :: struct BufRecvStream
 //@end
 
+impl<S, B> BufRecvStream<S, B> {
+//@extract h3/src/stream.rs :: impl BufRecvStream<S, B> :: fn new
+//@external_body_if ASSUME_UNIT_frames
+//@tag C19
+//@ret r
+//@sig
+        ensures r.buf@ =~= Seq::<u8>::empty(), r.buf.wf(), r.eos == false, r.stream == stream, // [C19.bufrecv.new]
+//@end
+}
 impl<S: RecvStream, B> BufRecvStream<S, B> {
     // what is buffered is the not-yet-consumed tail of what the transport has delivered
     pub open spec fn wf(&self) -> bool {
